@@ -167,6 +167,16 @@ def _t_ret(line, arg=None):
     return '%s(%s: %s)%s' % (m.group(1), arg, ty, m.group(3))
 
 
+def _t_r8(line, arg=None):
+    """R8: destructuring assignment `(a, b) = e;` -> `let verif_t = e; a = verif_t.0; b = verif_t.1;`"""
+    return re.sub(r'^(\s*)\((\w+), (\w+)\) = (.*);\s*$', r'\1let verif_t = \4; \2 = verif_t.0; \3 = verif_t.1;', line)
+
+
+def _t_forname(line, arg=None):
+    """`for _ in E {` -> `for verif_it in E {` (the proof needs to name the iteration count)"""
+    return re.sub(r'^(\s*)for _ in ', r'\1for verif_it in ', line)
+
+
 def _t_sort(line, arg=None):
     """`v.sort();` -> `ol_sort(&mut v);` (outlined slice sort with its assumed contract)"""
     return re.sub(r'^(\s*)(\w+)\.sort\(\);\s*$', r'\1ol_sort(&mut \2);', line)
@@ -186,7 +196,7 @@ def _t_r7(line, arg=None):
     return '%slet verif_%s = [%s]; for verif_i_%s in 0..verif_%s.len()' % (ind, x, lst, x, x)
 
 
-TRANSFORMERS = [('Rsort', _t_sort), ('R7', _t_r7), ('R1', _t_r1), ('R1u', _t_unsafe), ('ret', _t_ret), ('brace', _t_brace)]
+TRANSFORMERS = [('Rfor', _t_forname), ('R8', _t_r8), ('Rsort', _t_sort), ('R7', _t_r7), ('R1', _t_r1), ('R1u', _t_unsafe), ('ret', _t_ret), ('brace', _t_brace)]
 
 
 def infer_transform(pinned_line, ann_line):
@@ -222,6 +232,10 @@ def key(line):
     s = line.strip()
     if s == '{':
         return '<<brace>>'
+    s = re.sub(r'^for verif_it in ', 'for _ in ', s)
+    m8 = re.match(r'^let verif_t = (.*); (\w+) = verif_t\.0; (\w+) = verif_t\.1;$', s)
+    if m8:
+        return '(%s, %s) = %s;' % (m8.group(2), m8.group(3), m8.group(1))
     ms = re.match(r'^ol_sort\(&mut (\w+)\);$', s)
     if ms:
         return '%s.sort();' % ms.group(1)
@@ -540,11 +554,11 @@ def apply_overlay(repo_src_dir, out_src_dir, units, canary=False, only_files=Non
         res = ''.join(out)
         res += '\n' + '\n'.join(hoisted)
         res += '\n#[allow(unused_imports)] use vstd::prelude::*;\n#[allow(unused_imports)] use crate::verif_specs::*;\n'
+        if file == 'src/lib.rs':
+            res += '\npub mod verif_specs;\n'
         ap = os.path.join(CONTRACTS, stem_of(file), '_appendix.rs')
         if os.path.exists(ap):
             res += '\n// ---- verif appendix ----\n' + open(ap).read()
-        if file == 'src/lib.rs':
-            res += '\npub mod verif_specs;\n'
         dst = os.path.join(out_src_dir, rel)
         os.makedirs(os.path.dirname(dst), exist_ok=True)
         with open(dst, 'w') as f:
